@@ -1,7 +1,7 @@
 (* C08: every forwarded message is justified - proofs over model.AlphWatcher (the parts that depend on the extracted
-   confirmation test, hold time and re-observation filters; the structural invariant is in AlphWatcherProofs). *)
+   confirmation test, hold time and re-observation filters; the structural invariant is in AlphWatcherBase). *)
 From Coq Require Import List ZArith Bool Lia Arith.
-From WH Require Import gen.Extracted model.AlphWatcher proofs.AlphWatcherProofs.
+From WH Require Import gen.Extracted model.AlphWatcher proofs.AlphWatcherBase.
 Import ListNotations.
 Open Scope Z_scope.
 
